@@ -87,7 +87,7 @@ func alphabetC10(cfg Cfg) []Op {
 
 func runC10(c *Ctx) {
 	depth := 3
-	cfgs := []Cfg{{Async: 1}, {Async: 2}, {Async: 3}, {Async: 1, Lower: true, Ext: ".obj"}}
+	cfgs := []Cfg{{Async: 1}, {Async: 2}, {Async: 3}, {Async: 1, Lower: true, Ext: ".v1.obj"}}
 	if c.Tier == "thorough" {
 		depth = 5
 		cfgs = append(cfgs, Cfg{Async: 1, Cache: true, Compress: true}, Cfg{Async: 2, Index: 2, MapRev: true})
